@@ -30,6 +30,7 @@ structure Level where
   down3 : List (List Nat)          -- wiring observed for the run resumed from the SECOND recovery file
   starters3 : List Nat
   sched3 : List Tok
+  cutT : Nat                       -- schedule tokens of THIS level consumed before the checkpoint save
 
 structure DSt where
   n : Nat
@@ -44,6 +45,7 @@ structure DSt where
   fails2 : List Nat                -- leaves that raise in the resumed run (flat graphs)
   clearAll : Bool                  -- `running` is cleared too (checkpoint / interrupt: the process is gone)
   clearAll2 : Bool                 -- the same for the second recovery file
+  suppress : Bool                  -- the first run was `run(raise_run_exceptions=False)`: no file, resumed in place
   kbd2 : List Nat
 
 def emptyFin (n : Nat) : FinDag :=
@@ -52,7 +54,7 @@ def emptyFin (n : Nat) : FinDag :=
 
 def DSt.init : DSt :=
   { n := 0, rc := RCfg.now, levels := [], cur := none, dirty := [], cut := none, keyAfterRun := true,
-    cp := [], ckptMore := [], fails2 := [], kbd2 := [], clearAll := true, clearAll2 := true }
+    cp := [], ckptMore := [], fails2 := [], kbd2 := [], clearAll := true, clearAll2 := true, suppress := false }
 
 def setAt {α} (l : List α) (i : Nat) (v : α) (dflt : α) : List α :=
   let l' := if l.length ≤ i then l ++ List.replicate (i + 1 - l.length) dflt else l
@@ -153,9 +155,9 @@ def modeFor (ls : List Level) (l : Level) (cut : Option (Nat × Nat × Nat)) (T 
   match cut with
   | none => .toEnd
   | some (lidC, c, _) =>
-    if l.id == lidC then .ckpt c T
+    if l.id == lidC then .ckpt c (max T l.cutT)
     else match l.macros.find? (fun (_, lid2) => subtreeHas ls ls.length lid2 lidC) with
-      | some (g, _) => .chain g T
+      | some (g, _) => .chain g (max T l.cutT)
       | none => .toEnd
 
 structure LvlCut where
@@ -378,7 +380,9 @@ partial def resumeTree (st : DSt) (cuts : List LvlCut) (lid : Nat) (envChanged :
 
 /-! ### one case -/
 
-def runCase (st : DSt) : List String :=
+def runCase (st0 : DSt) : List String :=
+  -- a graph resumed in place keeps what a load may lose
+  let st : DSt := if st0.suppress then { st0 with rc := st0.rc.inPlace } else st0
   match st.levels.getLast? with
   | none => ["bad-op"]
   | some root =>
@@ -437,7 +441,8 @@ def runCase (st : DSt) : List String :=
       | none =>
         if rootFailed then
           let fs := Storage.saveFS stCfg Storage.FS.init (content (cpDoneAt cutStates)) Storage.Cls.graph 1
-          (((forest.recoveryFiles depthFuel allNodes failedLeaves).map fun n => showFS (rootDir n) "recovery" fs).flatten, fs)
+          (((forest.recoveryFilesR (fun n => !(st.suppress && n == rootId)) depthFuel allNodes failedLeaves).map
+            fun n => showFS (rootDir n) "recovery" fs).flatten, if st.suppress then Storage.FS.init else fs)
         else ([], Storage.FS.init)
     let perLevel := ls.map fun l =>
       let tag := s!"L{l.id}"
@@ -540,7 +545,7 @@ def step' (s : DSt) (ws : List String) : DSt × List String :=
       ({ s with cur := some { id := lid, own := [], f := emptyFin s.n, down2 := List.replicate s.n [], starters2 := [],
                                exec2 := List.replicate s.n false, macros := [], ui := [], vlink := [], outNode := 0,
                                sched := [], sched2 := [], kbd := [], down3 := List.replicate s.n [], starters3 := [],
-                               sched3 := [] } }, [])
+                               sched3 := [], cutT := 0 } }, [])
     | none => (s, ["bad-op"])
   | ["endlevel"] => match s.cur with
     | some l => ({ s with levels := s.levels ++ [l], cur := none }, [])
@@ -603,6 +608,9 @@ def step' (s : DSt) (ws : List String) : DSt × List String :=
   | "starters3" :: ss => match nats ss with
     | some ss => withCur s fun l => some { l with starters3 := ss }
     | none => (s, ["bad-op"])
+  | ["cutT", n] => match n.toNat? with
+    | some n => withCur s fun l => some { l with cutT := n }
+    | none => (s, ["bad-op"])
   | "sched3" :: ts => match ts.mapM parseTok with
     | some ts => withCur s fun l => some { l with sched3 := ts }
     | none => (s, ["bad-op"])
@@ -614,6 +622,9 @@ def step' (s : DSt) (ws : List String) : DSt × List String :=
     | none => (s, ["bad-op"])
   | "fails2" :: is => match nats is with
     | some is => ({ s with fails2 := is }, [])
+    | none => (s, ["bad-op"])
+  | ["suppress", a] => match parseBool a with
+    | some a => ({ s with suppress := a }, [])
     | none => (s, ["bad-op"])
   | ["clear", a, b] => match parseBool a, parseBool b with
     | some a, some b => ({ s with clearAll := a, clearAll2 := b }, [])
